@@ -186,6 +186,21 @@ prop("C19", "exploration",
      [{"test": "TestC19", "quick": {"checks": 30000, "shards": 2, "timeout": 600},
        "thorough": {"checks": 300000, "shards": 16, "timeout": 3000}}])
 
+prop("C09", "exploration",
+     "cases = one journal key per case, executed as real byte-code (registration opcode VSVJNAL/RSVJNAL, then VVJNAL/VRJNAL, "
+     "then a marker SSTORE) by the top frame, through a CALL, or through CALL+DELEGATECALL, on every fork Frontier..Cancun, "
+     "over storage prepared in the pre-state. Value keys: slot (small ints / hashed / leading-zero / random) x word (random, "
+     "all ones, sparse, counting) x (offset, width): valid pairs with offset+width<=32, offset in {32,33,255,256,2^64,2^255}, "
+     "width in {33,64,255,2^32,2^64,2^256-1}, offset+width>32. Reference keys: strings of length {0,1,5,30,31,32,33,40,63,64,"
+     "65,100,130} or random 0..130 with random / all-zero / leading-zero content, dirty bytes after the end, poisoned "
+     "neighbour slots, and invalid encodings (short form with length>=32, long form with length<32). Oracle = independent "
+     "decoder of Solidity's storage layout applied to the pre-state: valid => the frame continues and the last entry under "
+     "the executing call index, reached by name AND by (slot, offset, type), equals the decoded bytes; invalid => the frame "
+     "fails at that instruction and nothing is recorded; never a panic. Non-trivial = packed field with offset>0 and "
+     "0<width<32, string with leading zero byte or length>=31, or an invalid case.",
+     [{"test": "TestC09", "quick": {"checks": 10000, "shards": 2, "timeout": 600},
+       "thorough": {"checks": 100000, "shards": 16, "timeout": 3000}}])
+
 # ---------------------------------------------------------------------------
 # Text for MANIFEST.json (gen_manifest.py)
 
@@ -258,6 +273,15 @@ MANIFEST_TEXT = {
         "level_note": "Trusted: debug-tracer stream; EIP-150 arithmetic for the gas passed to refused creates. For refused "
                       "attempts (no frame) the error text is not predicted, only its presence.",
         "technique": "property-based testing against an independent event-log oracle (rapid)",
+    },
+    "C09": {
+        "level_text": "Property-based testing against an independent reference decoder of Solidity's storage layout: generated "
+                      "(slot, word, offset, width) and (slot, string encoding) cases are journaled by real byte-code and the "
+                      "recorded bytes are compared with the decoded pre-state through both lookup views.",
+        "design_ref": "DESIGN.md section 4, C09",
+        "level_note": "String lengths are bounded by 130 bytes here (huge stored lengths are C20's subject). Zero-width fields are "
+                      "not generated (the statement does not say whether they denote a valid field).",
+        "technique": "property-based testing against an independent reference decoder (rapid)",
     },
     "C10": {
         "level_text": "Property-based testing against a shadow journal rebuilt from the event log of generated call trees "
